@@ -105,10 +105,22 @@ func genArgs(cfg Config, o *Out) (args []any, finish func()) {
 			close(ch)
 			for v := range ch {
 				o.Docs = append(o.Docs, simplify(v))
+				o.GenDocs = append(o.GenDocs, Canon(nodeAny(v)))
 			}
 		}
 	}
-	return []any{func(v gen.Node) bool { o.Docs = append(o.Docs, simplify(v)); return false }}, func() {}
+	return []any{func(v gen.Node) bool {
+		o.Docs = append(o.Docs, simplify(v))
+		o.GenDocs = append(o.GenDocs, Canon(nodeAny(v)))
+		return false
+	}}, func() {}
+}
+
+func nodeAny(n gen.Node) any {
+	if n == nil {
+		return nil
+	}
+	return n
 }
 
 func simplify(n gen.Node) any {
@@ -128,6 +140,7 @@ func GenParser() *M {
 		var n gen.Node
 		n, o.Err = p.ParseReader(r, args...)
 		o.Result = simplify(n)
+		o.GenCanon, o.HasGen = Canon(nodeAny(n)), true
 		fin()
 	}
 	m.whole = func(m *M, data []byte, cfg Config, o *Out) {
@@ -136,6 +149,7 @@ func GenParser() *M {
 		var n gen.Node
 		n, o.Err = p.Parse(data, args...)
 		o.Result = simplify(n)
+		o.GenCanon, o.HasGen = Canon(nodeAny(n)), true
 		fin()
 	}
 	return m
